@@ -960,11 +960,30 @@ func skipTableRule(c *core.Ctx, g skipGroup) {
 			continue
 		}
 		want, listed := skipGenTable[fnName]
+		recvNote := ""
+		if !listed {
+			// a method whose receiver changed between pointer and value keeps its callers' rows, but what it
+			// stores into the receiver now lands in a copy: compared with the rows reviewed under the other name
+			if alt := altRecvName(fnName); alt != "" && byName[alt] == nil {
+				if w2, ok := skipGenTable[alt]; ok {
+					want, listed = w2, true
+					recvNote = " (reviewed as " + alt + ": the receiver kind changed)"
+				}
+			}
+		}
 		if !listed {
 			continue // a function the reviewed tree did not have: it changes behaviour only through a caller, whose rows change
 		}
 		have := got[fnName]
 		fn := byName[fnName]
+		if recvNote != "" && fn != nil {
+			// only what the method does to its receiver depends on the receiver kind
+			c.Touch(fn)
+			n++
+			c.Check(!touchesReceiver(fn), fnName+recvNote+": the method does not modify its receiver", c.Pos(fn.Pos()), "no store into the receiver and no call that takes its address",
+				"the method stores into its receiver (or hands its address to a call) and the receiver changed between pointer and value: with a value receiver the modification is made on a copy and lost, with a pointer receiver it becomes visible to the caller")
+			continue
+		}
 		site := ""
 		if fn != nil {
 			c.Touch(fn)
@@ -991,7 +1010,7 @@ func skipTableRule(c *core.Ctx, g skipGroup) {
 				extra = append(extra, r)
 			}
 		}
-		c.Check(len(missing) == 0 && len(extra) == 0, fnName+": skips, cleanups and per-iteration effects are the reviewed ones", site, fmt.Sprintf("%d rows", len(want)),
+		c.Check(len(missing) == 0 && len(extra) == 0, fnName+recvNote+": skips, cleanups and per-iteration effects are the reviewed ones", site, fmt.Sprintf("%d rows", len(want)),
 			"rows that disappeared: ["+clip(strings.Join(missing, " ; "), 500)+"]; new rows: ["+clip(strings.Join(extra, " ; "), 500)+"] — an element, an iteration or an exit now bypasses (or no longer bypasses) the work of the function")
 	}
 	_ = home
@@ -1024,6 +1043,67 @@ var anchorTable = map[string][][2]string{
 	"C07": {{"converters/ingress/annotations", "updater.buildGlobalPathTypeOrder"}},
 	"C04": {{"converters/ingress/annotations", "updater.buildGlobalPathTypeOrder"}, {"converters/ingress", "converter.addHeaderMatch"}, {"haproxy/types", "+PathLink.AddHeadersMatch"}, {"haproxy/types", "+PathLink.WithHeadersMatch"}, {"haproxy/types", "+PathLink.WithHostname"}, {"haproxy/types", "+CreatePathLink"}, {"haproxy/types", "+CreateHostPathLink"}, {"haproxy/types", "+PathLink.Equals"}, {"haproxy/types", "+PathLink.Key"}},
 	"C10": {{"controller/config", "CreateWithConfig"}, {"controller/reconciler", "watchers.getHandlers"}},
+}
+
+// touchesReceiver: fn (a method) stores into a field of its receiver, or passes the address of its
+// receiver (of the local copy, for a value receiver) to a call.
+func touchesReceiver(fn *ssa.Function) bool {
+	if len(fn.Params) == 0 || fn.Signature.Recv() == nil {
+		return false
+	}
+	recv := fn.Params[0]
+	roots := map[ssa.Value]bool{recv: true}
+	for _, b := range fn.Blocks {
+		for _, in := range b.Instrs {
+			if st, ok := in.(*ssa.Store); ok && st.Val == ssa.Value(recv) {
+				roots[st.Addr] = true // the spilled copy of a value receiver
+			}
+		}
+	}
+	rooted := func(v ssa.Value) bool {
+		for i := 0; i < 6; i++ {
+			if roots[v] {
+				return true
+			}
+			switch x := v.(type) {
+			case *ssa.FieldAddr:
+				v = x.X
+			case *ssa.IndexAddr:
+				v = x.X
+			default:
+				return false
+			}
+		}
+		return false
+	}
+	for _, b := range fn.Blocks {
+		for _, in := range b.Instrs {
+			switch x := in.(type) {
+			case *ssa.Store:
+				if _, isFA := x.Addr.(*ssa.FieldAddr); isFA && rooted(x.Addr) {
+					return true
+				}
+			case ssa.CallInstruction:
+				for _, a := range x.Common().Args {
+					if _, isPtr := a.Type().Underlying().(*types.Pointer); isPtr && rooted(a) {
+						return true
+					}
+				}
+			}
+		}
+	}
+	return false
+}
+
+// altRecvName maps "(*pkg.T).m" to "(pkg.T).m" and back ("" for functions).
+func altRecvName(name string) string {
+	if strings.HasPrefix(name, "(*") {
+		return "(" + name[2:]
+	}
+	if strings.HasPrefix(name, "(") {
+		return "(*" + name[1:]
+	}
+	return ""
 }
 
 func init() {
